@@ -188,6 +188,12 @@ func cmdCheck(args []string) int {
 	if cfg.ID == "C05" {
 		e.SweepStyleWriters(cfg.ID)
 	}
+	if cfg.ID == "C16" {
+		e.SweepExpressionList(cfg.ID)
+	}
+	if cfg.ID == "C14" {
+		e.SweepContextValueMaps(cfg.ID)
+	}
 	if cfg.ID == "C14" {
 		e.SweepGlobals("C14", []string{modulePath + "/runtime", modulePath})
 	}
